@@ -114,6 +114,11 @@ func c08One(c *engine.Case, b []byte) {
 			c.Fail("validate-errors-on-accepted-frame/"+class, fmt.Sprintf("input %x: ValidateUplinkJoinMIC: %v", b, err), nil)
 		}
 	}
+	// "a network server can verify the MIC over ... a received frame without it changing": after the
+	// validations (with a key that is not the frame's) the frame still re-encodes to the input
+	if out2, err := p.MarshalBinary(); err != nil || !bytes.Equal(out2, b) {
+		c.Fail("re-encoding-differs-after-validation/"+class, fmt.Sprintf("input %x re-encodes to %x (err %v) after MIC validations with another key", b, out2, err), nil)
+	}
 	if c.WantSample() && len(b) > 14 {
 		c.Sample(func() interface{} {
 			return map[string]interface{}{"part": c.Part, "input": hex.EncodeToString(b), "class": class, "verdict": "accepted, canonical"}
